@@ -75,7 +75,9 @@ impl ExternalDevice for RegDev {
     fn poll_interrupt(&mut self) -> Option<Interrupt> { None }
 }
 
-thread_local! { pub static PAIR_TAG: std::cell::RefCell<String> = std::cell::RefCell::new("none".to_string()); }
+thread_local! {
+    /// replayed behaviours: headers without memory segments (see TV_Machine!TraceBaseRd)
+    pub static LIGHT_HEADERS: std::cell::Cell<bool> = const { std::cell::Cell::new(false) }; pub static PAIR_TAG: std::cell::RefCell<String> = std::cell::RefCell::new("none".to_string()); }
 thread_local! { static PAIR_POS: std::cell::Cell<u32> = const { std::cell::Cell::new(0) }; }
 pub fn set_pair_tag(t: &str) { PAIR_TAG.with(|p| *p.borrow_mut() = t.to_string()); PAIR_POS.with(|c| c.set(0)); }
 fn next_pair_pos() -> &'static str {
@@ -139,7 +141,8 @@ impl M {
         };
         let mut segs = vec![];
         let mut a = 0usize;
-        while a < 65536 {
+        let light = LIGHT_HEADERS.with(|l| l.get()) && matches!(flags.machine_init, MachineInitStrategy::Known { .. });
+        while a < 65536 && !light {
             if m.shadow[a] != fill {
                 let s = a;
                 let mut ws = vec![];
@@ -162,6 +165,15 @@ impl M {
             MachineInitStrategy::Unseeded => json!({"k": "unseeded", "v": 0}),
         };
         let p = m.proj_with(false);
+        if light {
+            out.emit(json!({
+                "ev": "New", "run": run, "pair": PAIR_TAG.with(|p| p.borrow().clone()), "pairpos": next_pair_pos(), "light": 1,
+                "flags": Flags::of(&flags).json(), "init": init, "fill": w(fill), "segs": [], "devs": m.devs,
+                "ports": [[0xFE00, 1], [0xFE02, 1], [0xFE04, 2], [0xFE06, 2]], "ireg": [[0xFFFC, "PSR"], [0xFFFE, "MCR"]],
+                "alloca": m.sim.verif_alloca().iter().map(|&(s, l)| json!([s, l])).collect::<Vec<_>>(), "proj": p,
+            }));
+            return m;
+        }
         out.emit(json!({
             "ev": "New", "run": run, "pair": PAIR_TAG.with(|p| p.borrow().clone()), "pairpos": next_pair_pos(),
             "flags": Flags::of(&flags).json(), "init": init,
